@@ -627,6 +627,8 @@ def specs():
                                    app=((0, 1, 8),)),
         "fill[unaligned]": Spec({"address": A + 1, "data": 7, "size": 3},
                                 method="fill", seq=(3,), cpu="p"),
+        "set_led[iterable]": Spec({"led": (0, 2), "action": None},
+                                  method="set_led", seq=(25,)),
         "load_routing_tables": Spec({"routing_tables": {(1, 2): [entry]}},
                                     seq=(28, 2, 3, 29), x=1, y=2,
                                     cores=(0, "M", "M", 0),
@@ -1610,6 +1612,7 @@ def units(tier, seed):
         "wait_for_cores_to_reach_state", "load_application",
         "load_application[use_count=False]", "load_routing_tables",
         "sdram_alloc_as_filelike", "sdram_alloc[clear]", "fill[unaligned]",
+        "set_led[iterable]",
         "get_iobuf", "get_ip_address", "get_working_links",
         "get_num_working_cores", "write_struct_field",
         "read_struct_field"])
